@@ -3,14 +3,14 @@
     the extracted inductive types.  No Extract Constant.  *)
 Require Extraction.
 Require Import ExtrOcamlBasic.
-From CV Require Import Model.Qualtrim Model.Align Model.Adapters Model.Kmer Model.Pipeline Model.Paired Model.PipelineRun Model.Parser Model.Runner Model.RunnerInst Model.Format Model.Index.
+From CV Require Import Model.Qualtrim Model.Align Model.Adapters Model.Kmer Model.ShiftAnd Model.Pipeline Model.Paired Model.PipelineRun Model.Parser Model.Runner Model.RunnerInst Model.Format Model.Index.
 Extraction Blacklist List String Int.
 Set Extraction KeepSingleton.
 Extraction "model.ml"
   quality_trim_index nextseq_trim_index poly_a_trim_index trim_n n_count
   quality_trimmer nextseq_trimmer
   locate thr_of match_to prefix_locate suffix_locate mkCfg mkAd
-  positions_and_kmers kmers_present match_to_prefiltered prefilter_passes finder_of
+  positions_and_kmers kmers_present kmers_present_sa match_to_prefiltered prefilter_passes finder_of
   run_cli process_cli best_match match_and_trim revcomp_stage
   make_from_spec mkG
   prun_cli process_pair_cli mkPO
